@@ -1436,6 +1436,71 @@ pub fn rm_small() -> BoxedStrategy<Option<u16>> {
     .boxed()
 }
 
+/// marker (`Ev::AdvanceIdentifiers { n: C10_FULL_WINDOW }` as the only event): the 65 535-slot
+/// window of a server that announces no Receive Maximum (or 65 535) filled to the brim
+const C10_FULL_WINDOW: u32 = 0xc10f_0001;
+
+/// 65 535 QoS 1/2 publishes outstanding at once, then one more: refused, nothing written; one
+/// acknowledgement, one more publish: accepted. Driven directly (no session model: its per-step
+/// bookkeeping over 65 535 operations takes minutes, see the thorough tier).
+fn c10_full_window(receive_max: Option<u16>) -> Option<Failure> {
+    use crate::world::World;
+    let plan = WritePlan::default();
+    let mut w = World::new();
+    w.poll_budget = 50_000_000;
+    let connack = rc::Connack { receive_maximum: receive_max, ..Default::default() };
+    if connect_and_run(&mut w, ConnectSpec::default(), &connack, &plan).is_err() {
+        return None;
+    }
+    w.sync_wire();
+    let before = w.pkts.len();
+    let publish = |i: u32| OpSpec::Publish(PublishSpec { qos: Some(1 + (i % 2) as u8), topic: Some("w".into()), ..Default::default() });
+    for i in 0..65_535u32 {
+        w.start_op(0, publish(i))?;
+    }
+    settle(&mut w, &plan, false);
+    if let Some(p) = first_panic(&w) {
+        return Some(Failure { sig: format!("PANIC/{}", panic_sig(&p)), msg: p });
+    }
+    w.sync_wire();
+    let on_wire = w.pkts[before..].iter().filter(|p| p.first >> 4 == 3).count();
+    let how = match receive_max {
+        None => "no Receive Maximum announced".to_string(),
+        Some(r) => format!("Receive Maximum {r}"),
+    };
+    if on_wire != 65_535 {
+        return Some(Failure { sig: "C10/refused-below-receive-maximum/full-window".into(), msg: format!("{on_wire} of 65 535 QoS>0 publishes were written ({how})") });
+    }
+    let extra = w.start_op(0, publish(1))?;
+    settle(&mut w, &plan, false);
+    w.sync_wire();
+    let now = w.pkts[before..].iter().filter(|p| p.first >> 4 == 3).count();
+    if now != 65_535 || !matches!(&w.ops[extra].res, Some(OpRes::Err(ErrSum::QuotaExceeded))) {
+        return Some(Failure {
+            sig: "C10/receive-maximum-exceeded".into(),
+            msg: format!("65 535 QoS>0 publishes are outstanding ({how}); one more publish ended as {:?} and {now} PUBLISH packets are on the wire", w.ops[extra].res),
+        });
+    }
+    // one slot comes back (the first publish was QoS 1 with identifier read off the wire)
+    let pid = w.pkts[before..].iter().find_map(|p| match &p.decoded {
+        Ok(rc::Packet::Publish(x)) if x.qos == 1 => x.pid,
+        _ => None,
+    })?;
+    feed_packet(&mut w, &rc::Packet::Puback(rc::Ack { pid, ..Default::default() }), &rc::Form::short());
+    settle(&mut w, &plan, false);
+    let again = w.start_op(0, publish(0))?;
+    settle(&mut w, &plan, false);
+    w.sync_wire();
+    let after = w.pkts[before..].iter().filter(|p| p.first >> 4 == 3).count();
+    if after != 65_536 || w.ops[again].res.is_some() {
+        return Some(Failure {
+            sig: "C10/refused-below-receive-maximum/full-window".into(),
+            msg: format!("after one PUBACK 65 534 publishes are outstanding ({how}); the next publish ended as {:?}, {after} PUBLISH packets on the wire", w.ops[again].res),
+        });
+    }
+    None
+}
+
 impl Property for C10 {
     const ID: &'static str = "C10";
     const RULE: &'static str = "Receive Maximum R in {1,2,3,5,16,65535,absent} x histories of QoS 0/1/2 publishes, other operations and acknowledgements (oldest/newest/random outstanding; success and every failing reason; PUBACK, PUBREC, PUBCOMP) under quiescent stepping, so the model predicts every accept/refuse decision exactly; exhaustive over a 6-symbol alphabet for R in {1,2}. Non-trivial = the quota was exhausted and later replenished at least once";
@@ -1487,6 +1552,11 @@ impl Property for C10 {
             events.push(Ev::Start { h: 0, kind: OpKind::Pub2, settle: false, solo: false });
             fill.push(Scenario { receive_max: if worker == 0 { None } else { Some(65535) }, max_packet_size: None, id_offset: 0, prologue: 0, events });
         }
+        for (k, rm) in [None, Some(65_535u16)].into_iter().enumerate() {
+            if (k + 2) % workers.max(1) == worker {
+                fill.push(Scenario { receive_max: rm, max_packet_size: None, id_offset: 0, prologue: 0, events: vec![Ev::AdvanceIdentifiers { n: C10_FULL_WINDOW }] });
+            }
+        }
         Box::new(
             sequences(alphabet, depth, worker, workers)
                 .map(|events| Scenario { receive_max: Some(1), max_packet_size: None, id_offset: 0, prologue: 0, events })
@@ -1503,6 +1573,13 @@ impl Property for C10 {
     }
 
     fn run(case: &Scenario) -> Outcome {
+        if matches!(case.events[..], [Ev::AdvanceIdentifiers { n: C10_FULL_WINDOW }]) {
+            let mut o = Outcome::ok();
+            o.nontrivial = true;
+            o.class("window-of-65535-filled-to-the-brim");
+            o.fail = c10_full_window(case.receive_max);
+            return o;
+        }
         let cfg = SimCfg::default();
         let out = run(case, &cfg);
         let mut o = Outcome::ok();
@@ -1893,6 +1970,17 @@ impl Property for C15 {
             2 => sel().prop_map(|sel| vec![Ev::DropStream { sel }, Ev::Settle]),
             1 => Just(vec![Ev::ReenterRun]),
             1 => Just(vec![Ev::PollCtx]),
+            // a QoS 2 message naming several subscriptions (some of whose streams may be gone),
+            // sent again before its PUBREL, then released: the surviving streams get it once
+            2 => (1u16..4, prop::sample::select(vec![Target::All, Target::AllReversed, Target::Two(0, 65535), Target::Two(65535, 0)]), any::<bool>()).prop_map(|(pid, target, release)| {
+                let p = |dup: bool| Ev::In(Inbound::Publish { qos: 2, dup, retain: false, pid, target, payload_len: 1, props: 0 });
+                let mut v = vec![p(false), Ev::Settle, p(true), Ev::Settle];
+                if release {
+                    v.push(Ev::In(Inbound::Pubrel { pid, known: false }));
+                    v.push(Ev::Settle);
+                }
+                v
+            }),
         ];
         let s = (prop::sample::select(vec![Some(1u16), Some(2), Some(3), Some(5), None]), vec(ev, 1..tier.pick(40, 120)), prologue_variant())
             .prop_map(|(receive_max, evs, prologue)| Scenario {
@@ -2001,7 +2089,7 @@ impl Property for C15 {
         if out.stats.inexact_starts > 0 {
             o.excluded.push("accept/refuse verdict skipped: start not in a clean window".into());
         }
-        let cand = failure_for(&out, &["C15/", "C05/", "C10/", "C07/", "C13/run-returned-without-cause", "C06/pubrel", "C01/wire", "C06/unexpected-packet-on-wire", "C06/request-not-written"]);
+        let cand = failure_for(&out, &["C15/", "C05/", "C10/", "C07/", "C09/stream", "C13/run-returned-without-cause", "C06/pubrel", "C01/wire", "C06/unexpected-packet-on-wire", "C06/request-not-written"]);
         if let Some(f) = cand {
             if f.sig.starts_with("C15/") || f.sig.starts_with("PANIC/") || f.sig.starts_with("LIVELOCK/") || f.sig.starts_with("HARNESS/") {
                 o.fail = Some(f);
